@@ -161,7 +161,7 @@ PROPS["C02"] = dict(
     stages=[rust(id="DOC", args={"flavor": "c02"}), rust(id="OBS", args={"dir": "{out}/cases"}), py("pyref.checks.docchecks", args={"prop": "C02"})],
     rule="program = 1-6 pages (5 page sizes incl. fractional, rotation 0/90/180/270), 3-30 drawing/text steps per page (paths, fills, strokes, RGB/gray/CMYK colours, line width, q/Q, cm, text in 8 standard fonts with delimiters and Latin-1), raw RGB / gray / RGBA images, annotations, outlines, metadata; every program under xref table|stream x object streams x compression x version 1.4/1.5/1.7/2.0. Non-trivial: >=2 pages or >=1 image, and >=10 operators; distinct by (program, configuration)",
     assumptions=["the model's content is the page's own in-memory serialisation (hook H5); API-call -> operator fidelity is C21's subject", "annotation, outline and metadata *text* is judged by C10/C28, here only counts"],
-    floors={"quick": {"evaluations": 300, "distinct": 150, "counters": {"obs": 500}}, "thorough": {"evaluations": 15000, "distinct": 8000}},
+    floors={"quick": {"evaluations": 300, "distinct": 150, "counters": {"obs": 500, "programs_with_100_or_more_pages": 1, "programs_reusing_one_image_name_across_pages": 1}}, "thorough": {"evaluations": 15000, "distinct": 8000}},
     level_text="Sampled programs, exhaustive over the 32-point configuration lattice for each program; exact oracles (token and sample equality).",
     level_note="Trusted base: pyref/pdf.py (strict reader, anchored to repository fixtures), hook H5.",
 )
